@@ -140,12 +140,13 @@ G2_SCALES = {"quick": [2.9e-13, 1e-3, 977.0, 4.1e9], "thorough": [2.9e-13, 7e-7,
 
 def homog_request(ctx, c, n):
     fn = extract.get_function(c.name)
-    sig = extract.numba_signature(fn.node)
+    sig = extract.numba_signature(fn.node) if c.types is None else (None, c.types)
     params = [a.arg for a in fn.node.args.args]
     def inst(spec):  # a polymorphic dimension variable is replayed at T
         if isinstance(spec, str):
+            import re
             for p in c.poly:
-                spec = "log:T" if spec == "log:" + p else "T" if spec == p else spec
+                spec = re.sub(rf"\b{re.escape(p)}\b", "T", spec)
             return spec
         return [inst(x) if not isinstance(x, int) else x for x in spec]
     return {"function": c.name, "params": params, "types": [list(t) for t in sig[1]],
